@@ -236,7 +236,9 @@ bool Instance::rewind() {
         return false;
     }
     if (env->done) {
+        // the last step only delivered the verdict; undoing it must not also undo the last operation
         env->done = false;
+        return true;
     }
     return RewindScript(*env);
 }
